@@ -173,6 +173,10 @@ def run_property(pid, tier, seed, replay, *, make_cases, judge, corr_filter=None
         for (i, text) in judge(rec, price, ops_try):
             if not (classify and classify(rec, price, ops_try, i, text)):
                 return True
+        if coq_queries:
+            qs = [q for (_, q, _) in coq_queries(rec, price, ops_try)]
+            if qs and not all(coq_judge(qs)):
+                return True
         return False
 
     if judge_bad:
@@ -212,10 +216,29 @@ def histories(rng, n, lo=5, hi=40, n_long=None, **kw):
     """n ordinary histories plus a share of LONG ones (150-450 operations, many cancels and amendments):
     queue-internal thresholds (compaction, resizing, batch limits) are only crossed by long histories."""
     out = []
+    n_burst = kw.pop("n_burst", max(3, n // 400))
     for i in range(n):
         g = lvl.HistGen(rng, big=(i % 12 == 0), **kw)
         g.upd_heavy = (i % 9 == 4)
         out.append((g.price, g.history(rng.randint(lo, hi) * (2 if g.upd_heavy else 1))))
+    # tombstone bursts: N amendments of one order, or N add+cancel pairs, in front of a live order, then a sweep
+    # (thresholds inside queue code: 64, 256, 1024 dead entries)
+    for i in range(n_burst):
+        N = rng.choice([63, 64, 65, 255, 256, 257, 1023, 1024, 1025]) if i % 3 else rng.choice([64, 1024, 1025])
+        ops = ["ADD " + gen.order("S", oid="u1", price=100, side="S", ts=10, tif="GTC", vis=11)]
+        if rng.random() < 0.5:
+            for j in range(N):
+                ops.append("UPD UQ:u1:%d" % (10 + j % 3))
+        else:
+            for j in range(N):
+                ops.append("ADD " + gen.order("S", oid="u%d" % (100 + j), price=100, side="S", ts=11 + j, tif="GTC", vis=1))
+                ops.append("UPD C:u%d" % (100 + j))
+        ops.append("ADD " + gen.order("S", oid="l2", price=100, side="S", ts=5000, tif="GTC", vis=20))
+        ops.append("MATCH %d u7000" % rng.choice([31, 40, 1 << 40]))
+        ops.append("UPD C:l2")
+        ops.append("ADD " + gen.order("I", oid="u3", price=100, side="B", ts=6000, tif="GTC", vis=2, hid=5))
+        ops.append("MATCH 3 u7001")
+        out.append((100, ops))
     n_long = max(20, n // 40) if n_long is None else n_long
     for i in range(n_long):
         g = lvl.HistGen(rng, **kw)
